@@ -30,6 +30,16 @@ CHECKS = {
    note="Trusted: Coq kernel; extraction/driver; harness/pepper.py printers/readers; pickle for the object read-back. Equality with the explicit spelling of a composite 'up to anonymous numbering' is checked by correspondence, the position theorem is proved. Axioms: none.",
    technique="Coq proofs on the wildcard model + extracted-model/implementation correspondence",
    design="5 C10"),
+ "C09": dict(
+   text="Proof: the emission of every component object satisfying the invariants WF and WF2 passes the executable well-formedness predicate wf_pil (unique earlier definitions, resolved length = declared length for every sequence / super-sequence / strand, every structure balanced with one segment per strand of that strand's length, kinetics over defined structures); the checkers establishing WF/WF2 per compiled case are proved sound; every structure any notation compiles to is balanced, also after domain-level expansion (5 theorems, closed). wf_pil, extracted from Coq, is evaluated on the real .pil of every accepted AST mutant, token-level text mutant and wrong-arity instantiation; AST mutants are also compared model vs implementation (accept/reject and output).",
+   note="Trusted: Coq kernel; extraction/driver; harness mutators, printer and .pil reader. Partial: 'accepted => WF/WF2' is checked per case by proved-sound checkers, not yet proved for all programs; .sys-level clauses (instance arity) are exercised for component templates only here and for systems in C02. Axioms: none.",
+   technique="Coq proof that emission satisfies an executable well-formedness predicate + mutation correspondence",
+   design="5 C09"),
+ "C14": dict(
+   text="Proof (emission model): a zero-length base sequence contributes no nucleotide wherever it is inserted or deleted; zero-length items never appear in emitted item lists and inserting/deleting them leaves the lists unchanged; no emitted sequence / super-sequence line has length 0; in a well-formed object a zero-length reference denotes nothing; strands re-read to the flattening of their base lists (6 theorems, closed). Correspondence on (program, program + zero-length insertions) pairs: both compiled, designs compared modulo anonymous numbering, designer arrays compared in both layouts, the zero-length variant pushed through fill -> .mfe -> finish.",
+   note="Trusted: Coq kernel; extraction/driver; harness generators, .pil reader, array filler. Insertions avoid strands of domain-level structures (those would need an extra '.' per inserted domain). Axioms: none.",
+   technique="Coq proofs on the emission model + pairwise differential correspondence through compiler, designer front-end and finisher",
+   design="5 C14"),
 }
 
 checks = []
